@@ -11,6 +11,7 @@ from .numpy_vjps import (
     dot_adjoint_1,
     match_complex,
     nograd_functions,
+    partition_permutation,
     replace_zero,
     tensordot_adjoint_0,
     tensordot_adjoint_1,
@@ -279,7 +280,7 @@ if onp.lib.NumpyVersion(onp.__version__) < "2.0.0":
 
 
 def fwd_grad_partition(g, ans, x, kth, axis=-1, kind="introselect", order=None):
-    partition_perm = anp.argpartition(x, kth, axis, kind, order)
+    partition_perm = partition_permutation(ans, x, axis)
     return permute_along_axis(g, partition_perm, axis)
 
 
